@@ -282,6 +282,17 @@ def parse_contracts(lines):
         if " -- " in txt:
             txt = txt.split(" -- ")[0].rstrip()
         first = txt.split(None, 1)[0]
+        if first == "boundary":
+            # boundary <receiver or pkg prefix> Name1, Name2, ... {tags}: opaque functions (own contract: safety only)
+            curclause = None
+            tags, rest = _split_tags(txt)
+            parts = rest.split(None, 2)
+            prefix, names = parts[1], parts[2]
+            for n in [x.strip() for x in names.split(",") if x.strip()]:
+                d = Decl("func", prefix + "." + n, tags, ln["file"], ln["line"], ln["pkg"])
+                decls.append(d)
+            cur = None
+            continue
         if first in ("func", "extern", "interface", "type", "lemma", "history", "frame", "table", "axiom", "define", "coverage"):
             curclause = None
             tags, rest = _split_tags(txt)
